@@ -13,6 +13,8 @@ from symx.harness import SNP, conn_from_cex, pin, py_path, stubs_description, sy
 from symx.oracles import Lattice
 from symx.snp import SArr
 
+from props import alias_common as _alias
+
 ID = "C10"
 WALL, OPEN, START, END, PATH = (0, 0, 0), (255, 255, 255), (0, 255, 0), (255, 0, 0), (0, 0, 255)
 CH = {WALL: "#", OPEN: " ", START: "S", END: "E", PATH: "X"}
@@ -427,6 +429,7 @@ def jobs(tier, seed):
                     if L > r * c or (big and q and L > 4):
                         continue
                     out.append(dict(h="roundtrip", kind="SolvedMaze", r=r, c=c, s=list(s), L=L, via=via, max_seconds=3300))
+    out.append(dict(_alias.ALIAS_JOB))  # results must not alias library state, arguments or each other (props/alias_common.py)
     out[0]["twin"] = True
     return out
 
@@ -448,6 +451,7 @@ HARNESSES = {
     "from_bw": dict(run=_run_from_bw, replay=_replay_from_bw, patch=_PATCH),
     "roundtrip": dict(run=_run_roundtrip, replay=_replay_roundtrip, patch=_PATCH),
 }
+HARNESSES["alias"] = _alias.alias_harness("C10")
 
 META = dict(
     functions=["LatticeMaze._as_pixels_bw", "as_pixels", "_as_ascii_grid", "as_ascii", "_from_pixel_grid_bw", "_from_pixel_grid_with_positions", "from_pixels",
@@ -469,3 +473,5 @@ META = dict(
              "(excluded by the property)", "pictures that are not renderings of a maze"],
     assumptions=["representation invariant on input mazes", "solutions are simple paths along set connections"],
 )
+
+META.setdefault("degenerate", {})["alias"] = _alias.ALIAS_META
